@@ -381,15 +381,7 @@ func c01R2(c *Ctx, p *Prog) {
 			c.Anchor(rule, spec)
 			continue
 		}
-		a, b := callsIn(fn, "movegen.GenNoisy"), callsIn(fn, "movegen.GenNotNoisy")
-		ok := len(a) == 1 && len(b) == 1
-		if ok {
-			ok = sameValue(a[0].Common().Args[0], b[0].Common().Args[0], 0) && sameValue(a[0].Common().Args[1], b[0].Common().Args[1], 0)
-			// both on every path together: same block or mutual dominance+postdominance
-			pd := newPostDom(fn)
-			ok = ok && a[0].Block().Dominates(b[0].Block()) || a[0].Block() == b[0].Block()
-			ok = ok && (a[0].Block() == b[0].Block() || pd.PostDominates(b[0].Block(), a[0].Block()))
-		}
+		ok := bothHalvesTogether(fn)
 		c.Check(ok, rule, spec+"#both-halves", fn.Pos(), "consumer that needs every move calls GenNoisy and GenNotNoisy, on the same store and board, together on every path")
 	}
 	// picker: GenNoisy and GenNotNoisy each called exactly once in Next
@@ -790,4 +782,25 @@ func init() {
 			Old: "\t\tfor promo := Queen; promo > Pawn; promo-- {\n\t\t\tms.Alloc(move.From(from) | move.To(from+shift) | move.Promo(promo))", New: "\t\tfor promo := Queen; promo > Knight; promo-- {\n\t\t\tms.Alloc(move.From(from) | move.To(from+shift) | move.Promo(promo))",
 			Expect: "C01.R5/movegen.(generator).promoPushMoves#promotion-loop"},
 	)
+}
+
+// bothHalvesTogether: fn calls GenNoisy and GenNotNoisy exactly once each, on the
+// same store and board, and whenever one runs the other runs too.
+func bothHalvesTogether(fn *ssa.Function) bool {
+	a, b := callsIn(fn, "movegen.GenNoisy"), callsIn(fn, "movegen.GenNotNoisy")
+	if len(a) != 1 || len(b) != 1 {
+		return false
+	}
+	if !sameValue(a[0].Common().Args[0], b[0].Common().Args[0], 0) || !sameValue(a[0].Common().Args[1], b[0].Common().Args[1], 0) {
+		return false
+	}
+	if a[0].Block() == b[0].Block() {
+		return true
+	}
+	pd := newPostDom(fn)
+	first, second := a[0], b[0]
+	if !first.Block().Dominates(second.Block()) {
+		first, second = b[0], a[0]
+	}
+	return first.Block().Dominates(second.Block()) && pd.PostDominates(second.Block(), first.Block())
 }
